@@ -11,7 +11,9 @@ Import ListNotations.
 Inductive sop :=
   | SDo (c : change)          (* History.do(c) after c itself was performed *)
   | SUndo                     (* History.undo() of the last change *)
-  | SRedo.                    (* History.redo() of the last undone change *)
+  | SRedo                     (* History.redo() of the last undone change *)
+  | SUndoDrop                 (* History.undo(drop=True): undone and forgotten *)
+  | SClear.                   (* History.clear() *)
 
 Section Sessions.
   Variable ign : text -> bool.
@@ -34,11 +36,21 @@ Section Sessions.
     | c :: r => {| undo_list := undo_list h ++ [stamp c]; redo_list := rev r |}
     end.
 
+  (* undo(drop=True): the undone change is appended to the redo list and deleted from it again *)
+  Definition hist_undo_drop (h : hist) : hist :=
+    match rev (undo_list h) with
+    | [] => h
+    | c :: r => {| undo_list := rev r; redo_list := redo_list h |}
+    end.
+  Definition hist_clear (h : hist) : hist := {| undo_list := []; redo_list := [] |}.
+
   Definition sstep (h : hist) (o : sop) : hist :=
     match o with
     | SDo c => hist_do ign limit h c
     | SUndo => hist_undo h
     | SRedo => hist_redo h
+    | SUndoDrop => hist_undo_drop h
+    | SClear => hist_clear h
     end.
 
   (* the project that is never closed *)
